@@ -69,9 +69,9 @@ pub fn run(args: &Args) -> i32 {
             }
         }
     }
-    engine::par_for(items.len(), args.seed, |_w, i| {
+    let scratch = Scratch::new("c01");
+    let run_item = |i: usize| {
         let (base, prefix) = &items[i];
-        let scratch = Scratch::new("c01");
         let mut prog = prefix.clone();
         // a prefix of length 2 owns all its extensions up to depth; programs are not
         // extended past an operation the implementation rejected (it may have left
@@ -80,24 +80,30 @@ pub fn run(args: &Args) -> i32 {
         if prefix.len() == 2 && extendable {
             extend(&ctx, *base, &mut prog, depth, &alpha, &scratch);
         }
-    });
-
+    };
     let s = &stats;
-    report.set("evaluations", json!(s.recoveries.load(Ordering::SeqCst)));
-    report.set("distinct_nontrivial", json!(nontrivial_images.len()));
+    // items run in worker processes: a subject that aborts the process is charged to its item
+    let counts = |r: &Report| {
+        r.set("evaluations", json!(s.recoveries.load(Ordering::SeqCst)));
+        r.set("distinct_nontrivial", json!(nontrivial_images.len()));
+        r.set("programs", json!(s.programs.load(Ordering::SeqCst)));
+        r.set("crash_points", json!(s.crash_points.load(Ordering::SeqCst)));
+        r.set("torn_call_images", json!(s.torn.load(Ordering::SeqCst)));
+        r.set("second_crash_images", json!(s.second.load(Ordering::SeqCst)));
+        r.set("drop_checks", json!(s.drop_checks.load(Ordering::SeqCst)));
+        r.set("ops_rejected_by_impl", json!(s.ops_rejected.load(Ordering::SeqCst)));
+        r.set("distinct_images", json!(distinct_images.len()));
+        r.set("distinct_recovered_contents", json!(outcomes.len()));
+    };
+    if engine::run_items_isolated(args, &report, items.len(), &run_item, &counts, &|i| ("program-prefix".to_string(), format!("programs starting with {:?} from {:?}", items[i].1, items[i].0), json!({"base": format!("{:?}", items[i].0), "ops": items[i].1.iter().map(|o| format!("{o:?}")).collect::<Vec<_>>()}))) {
+        return 0;
+    }
+
     report.set("rule", json!("every sequence of <= depth storage operations over the alphabet from 5 base states (fresh, free hole, two live records, and the latter two with an outermost transaction already open); every prefix of the file-system calls of the last operation (and of the final drop) is a crash image, plus byte-prefixes of the interrupted call, plus every prefix of the calls made by recovery itself; each image is reopened with FileStorage and FileStorageMemoryMapped. distinct = distinct (data,log) byte images; non-trivial = images whose recovery log is not empty"));
     report.set("exhaustive", json!(true));
     report.set("depth", json!(depth));
     report.set("alphabet_size", json!(alpha.len()));
     report.set("base_states", json!(BASES_WITH_OPEN_TX.len()));
-    report.set("programs", json!(s.programs.load(Ordering::SeqCst)));
-    report.set("crash_points", json!(s.crash_points.load(Ordering::SeqCst)));
-    report.set("torn_call_images", json!(s.torn.load(Ordering::SeqCst)));
-    report.set("second_crash_images", json!(s.second.load(Ordering::SeqCst)));
-    report.set("drop_checks", json!(s.drop_checks.load(Ordering::SeqCst)));
-    report.set("ops_rejected_by_impl", json!(s.ops_rejected.load(Ordering::SeqCst)));
-    report.set("distinct_images", json!(distinct_images.len()));
-    report.set("distinct_recovered_contents", json!(outcomes.len()));
     report.assume("crash model: files hold exactly the effects of a prefix of the process's file-system calls, last call possibly torn (no reordering; the code never syncs)");
     report.assume("the fs-event hook reports every mutating call: checked by comparing the shadow image with the real files after every step");
     report.finish()
